@@ -43,7 +43,7 @@ def stats_of(p):
     return out
 
 
-def sequential(jobs):
+def sequential(jobs, warm=False):
     """oracle: each enabled job alone, one after the other, single thread"""
     ns = load(lambda: None)
     p = line_profiler.LineProfiler()
@@ -51,15 +51,16 @@ def sequential(jobs):
     p.add_function(ns['helper'])
     for (n, sl, enabled) in jobs:
         if enabled:
-            p.enable_by_count()
-            try:
-                ns['work'](n, sl)
-            finally:
-                p.disable_by_count()
+            for m in ([1, n] if warm else [n]):
+                p.enable_by_count()
+                try:
+                    ns['work'](m, sl)
+                finally:
+                    p.disable_by_count()
     return stats_of(p)
 
 
-def threaded(jobs, interval, decorate):
+def threaded(jobs, interval, decorate, warm=False):
     ns = load(lambda: time.sleep(0))
     p = line_profiler.LineProfiler()
     if decorate:
@@ -72,9 +73,21 @@ def threaded(jobs, interval, decorate):
     counts = {}
     errors = []
     start = threading.Barrier(len(jobs))
+    warm_lock = threading.Lock()
 
     def body(k, n, sl, enabled):
         try:
+            if warm and enabled:
+                # long-lived (pool) threads: each has used the profiler before, one after the other, when the overlapping work starts
+                with warm_lock:
+                    if decorate:
+                        w(1, sl)
+                    else:
+                        p.enable_by_count()
+                        try:
+                            w(1, sl)
+                        finally:
+                            p.disable_by_count()
             start.wait()
             if enabled and not decorate:
                 p.enable_by_count()
@@ -167,8 +180,8 @@ def main():
                 exp, got, counts, errors, main_count = aio(case['aio'], case.get('to_thread', 0))
                 out.append({'expected': exp, 'got': got, 'counts': counts, 'errors': errors, 'main_count': main_count})
                 continue
-            exp = sequential(jobs)
-            got, counts, errors, main_count = threaded(jobs, case['interval'], case.get('decorate', False))
+            exp = sequential(jobs, case.get('warm', False))
+            got, counts, errors, main_count = threaded(jobs, case['interval'], case.get('decorate', False), case.get('warm', False))
             out.append({'expected': exp, 'got': got, 'counts': counts, 'errors': errors, 'main_count': main_count})
         except Exception:
             import traceback
